@@ -544,6 +544,18 @@ Fixpoint sync_ips (w : world) (p : pod) (ips : list N) (fl : faults) (idx : nat)
 Definition sync_pod_ip (w : world) (p : pod) (fl : faults) : world :=
   if pd_phase p =? 1 then sync_ips w p (pd_ips p) fl 0 else w.
 
+(** syncPodIP is handed a pod OBJECT: the periodic pass lists the informer's pods and then walks the list, a pod update
+    handler runs some time after its event was queued.  [f16] (repaired, 08c3290): holding the pod's lock it queries the
+    informer again, skips an object whose UID is not the one the informer shows now (an earlier incarnation of a pod deleted
+    and created again under its name) and continues with the informer's current object; a pod the informer does not show is
+    synced as given.  Before the repair the given object was used as it was. *)
+Definition sync_given (f16 : bool) (w : world) (p : pod) (fl : faults) : world :=
+  match w_lister w !! pk p with
+  | Some cur => if f16 then (if str_eqb (pd_uid cur) (pd_uid p) then sync_pod_ip w cur fl else w)
+                else sync_pod_ip w p fl
+  | None => sync_pod_ip w p fl
+  end.
+
 (** ** the environment *)
 Inductive envop :=
 | EPodPut (p : pod)                      (* API server: create or replace a pod object *)
@@ -609,7 +621,8 @@ Inductive pop :=
 | PEvent (n : nat) (o : oracle) (ounassign : list N) (fl : faults)       (* a worker takes the n-th queued event and runs unbind *)
 | PResync (ip : N) (o : oracle) (oclear : list N) (fl : faults)
 | PApiRelease (k : Keys.keyobj) (ip : N) (oclear : list N) (fl : faults)
-| PSyncPod (key : pkey) (fl : faults)                                    (* periodic pod-IP sync of one informer pod *)
+| PSyncPod (p : pod) (fl : faults)        (* pod-IP sync (periodic pass or pod update handler) holding the pod OBJECT [p] it listed
+                                             or was queued with - possibly an earlier incarnation of the pod of that name *)
 | PIpam (o : op)                                                           (* reload / administrator / watch: crdIpam-level *)
 | PRestart (conf : list json).                                             (* new process: memory, event queue and informer cache are rebuilt *)
 
@@ -652,11 +665,7 @@ Definition pstep (w : world) (o : pop) : world * pout :=
       match api_release_section w k ip ocl fl with
       | (w', SOk) => (w', ROk) | (w', SErr) => (w', RErr) | (w', SStuck) => (w', RStuck)
       end
-  | PSyncPod key fl =>
-      match w_lister w !! key with
-      | Some p => (sync_pod_ip w p fl, ROk)
-      | None => (w, ROk)
-      end
+  | PSyncPod p fl => (sync_given true w p fl, ROk)
   | PIpam o => let r := step (w_ipam w) o in
                (set_ipam w (fst (fst r)), match snd (fst r) with AOk => ROk | AStuck => RStuck | _ => RErr end)
   | PRestart conf =>
